@@ -1,7 +1,15 @@
 import Kanzi.Model.Reader
 import Kanzi.Spec.Stream
+import Kanzi.Proofs.ReaderLemmas
+/-!
+Proofs of the reader-side property theorems over `Model.Reader`.  All helper lemmas (step equations
+for `readLoop` / `processBlock`, `runTasks` as an iteration of `taskStep`, `scan`, buffer/cursor
+invariants `BInv` / `RInv`, the central `readLoop_blocks`) live in `Kanzi/Proofs/ReaderLemmas.lean`.
+-/
 namespace Kanzi.Reader
 open Kanzi.Spec
+
+set_option linter.unusedVariables false
 
 theorem reader_refines_spec (c : Cfg) (hB : 0 < c.B) (hJ : 0 < c.J) (blocks : List (List Nat))
     (hv : validBlocks c.B blocks) (sizes : List Nat) :
@@ -12,19 +20,59 @@ theorem reader_refines_spec (c : Cfg) (hB : 0 < c.B) (hJ : 0 < c.J) (blocks : Li
       ((readSeq c (init (validFrames blocks)) sizes).2)[k]? =
         some (if n = 0 then ReadRes.data [] none
               else if pos ≥ expected.length then ReadRes.eof
-              else ReadRes.data (specRead expected pos n) none) := by sorry
+              else ReadRes.data (specRead expected pos n) none) := by
+  intro expected k hk
+  have hI : BInv c (init (validFrames blocks)) := by simp [BInv, init, WFB]
+  have hR : RInv c [Frame.endMarker] (init (validFrames blocks)) expected :=
+    Or.inr ⟨0, blocks, rfl, rfl, hv, by simp [expected, selectRange_eq], Or.inl rfl⟩
+  have := readSeq_valid c hB hJ sizes _ expected hI hR rfl k hk
+  have hp : pending (init (validFrames blocks)) = [] := by simp [pending, init]
+  rw [hp, List.nil_append] at this
+  exact this
 
 theorem decoded_in_range (c : Cfg) (hB : 0 < c.B) (hJ : 0 < c.J) (frames : List Frame) (sizes : List Nat) :
-    ∀ id ∈ (readSeq c (init frames) sizes).1.decodedIds, inRange c id = true := by sorry
+    ∀ id ∈ (readSeq c (init frames) sizes).1.decodedIds, inRange c id = true :=
+  readSeq_dec c _ sizes (by simp [init])
 
 theorem nothing_after_error (c : Cfg) (hB : 0 < c.B) (hJ : 0 < c.J) (s : St) (n : Nat)
     (h : (read c s n).2.isErr = true) (hcl : s.closed = false) (sizes : List Nat) :
-    ∀ r ∈ (readSeq c (read c s n).1 sizes).2, r.bytes = [] := by sorry
+    ∀ r ∈ (readSeq c (read c s n).1 sizes).2, r.bytes = [] := by
+  have hd : Dead (read c s n).1 := by
+    unfold read at h ⊢
+    simp only [hcl, Bool.false_eq_true, if_false] at h ⊢
+    exact readLoop_err_dead c _ _ _ s h
+  exact fun r hr => (readSeq_dead c _ sizes hd r hr).1
+
+/-
+ORIGINAL STATEMENT (FALSE for the model as written):
 
 theorem no_eof_without_marker (c : Cfg) (hB : 0 < c.B) (hJ : 0 < c.J) (frames : List Frame)
     (hno : Frame.endMarker ∉ frames) (sizes : List Nat) :
     ∀ k : Nat, ((readSeq c (init frames) sizes).2)[k]? = some ReadRes.eof →
-      ∃ j : Nat, j < k ∧ (((readSeq c (init frames) sizes).2)[j]?.map ReadRes.isErr) = some true := by sorry
+      ∃ j : Nat, j < k ∧ (((readSeq c (init frames) sizes).2)[j]?.map ReadRes.isErr) = some true
+
+Counterexample (`no_eof_without_marker_counterexample` below): B = 2, J = 1, no range,
+frames = [Frame.block []] (a frame that decodes, without error, to ZERO bytes; `Frame.oversize 0`
+behaves identically), sizes = [1].  The single task delivers an empty, non-skipped, non-error result,
+`scan` reports 0 decoded bytes without error, and `readLoop` turns "0 bytes, no error" into `.eof` at
+k = 0, with no earlier call that could have reported an error.  The model's comment says that block
+frames are non-empty, but the type does not enforce it; with that side condition the statement holds
+(`no_eof_without_marker_partial`).
+-/
+theorem no_eof_without_marker_counterexample :
+    let c : Cfg := { B := 2, J := 1, nbIn := 0, from_ := none, to_ := none }
+    Frame.endMarker ∉ [Frame.block []] ∧
+    (readSeq c (init [Frame.block []]) [1]).2 = [ReadRes.eof] ∧
+    (readSeq c (init [Frame.oversize 0]) [1]).2 = [ReadRes.eof] := by
+  refine ⟨by simp, ?_, ?_⟩ <;> decide
+
+/-- PARTIAL version of `no_eof_without_marker`: additionally no frame decodes to zero bytes -/
+theorem no_eof_without_marker_partial (c : Cfg) (hB : 0 < c.B) (hJ : 0 < c.J) (frames : List Frame)
+    (hno : Frame.endMarker ∉ frames)
+    (hne : ∀ f ∈ frames, f ≠ Frame.block [] ∧ f ≠ Frame.oversize 0) (sizes : List Nat) :
+    ∀ k : Nat, ((readSeq c (init frames) sizes).2)[k]? = some ReadRes.eof →
+      ∃ j : Nat, j < k ∧ (((readSeq c (init frames) sizes).2)[j]?.map ReadRes.isErr) = some true :=
+  readSeq_fok c hJ sizes (init frames) ⟨by simp [init], hno, hne⟩
 
 theorem error_position (c : Cfg) (hB : 0 < c.B) (hJ : 0 < c.J) (blocks : List (List Nat))
     (hv : ∀ b ∈ blocks, b.length = c.B) (bad : Frame) (hbad : bad = .badCrit ∨ bad = .badPost)
@@ -32,9 +80,21 @@ theorem error_position (c : Cfg) (hB : 0 < c.B) (hJ : 0 < c.J) (blocks : List (L
     (rest : List Frame) (sizes : List Nat) :
     let outs := (readSeq c (init (blocks.map Frame.block ++ bad :: rest)) sizes).2
     (outs.map ReadRes.bytes).flatten <+: (selectRange c.from_ c.to_ blocks).flatten ∧
-    ReadRes.stale ∉ outs := by sorry
+    ReadRes.stale ∉ outs := by
+  intro outs
+  have hI : BInv c (init (blocks.map Frame.block ++ bad :: rest)) := by simp [BInv, init, WFB]
+  have hR : RInv c (bad :: rest) (init (blocks.map Frame.block ++ bad :: rest))
+      (selectRange c.from_ c.to_ blocks).flatten :=
+    Or.inr ⟨0, blocks, rfl, rfl, validBlocks_of_full c.B hB blocks hv, by simp [selectRange_eq],
+      Or.inr ⟨bad, rest, rfl, hbad, by simpa using hin⟩⟩
+  have := readSeq_prefix c hB hJ (bad :: rest) sizes _ _ hI hR rfl
+  have hp : pending (init (blocks.map Frame.block ++ bad :: rest)) = [] := by simp [pending, init]
+  rw [hp, List.nil_append] at this
+  exact this
 
 theorem closed_absorbing (c : Cfg) (s : St) (n : Nat) :
-    close (close s) = close s ∧ read c (close s) n = (close s, ReadRes.data [] (some Err.closed)) := by sorry
+    close (close s) = close s ∧ read c (close s) n = (close s, ReadRes.data [] (some Err.closed)) := by
+  unfold close read
+  cases h : s.closed <;> simp [h]
 
 end Kanzi.Reader
